@@ -30,6 +30,27 @@ def _child_prepare():
     transport.seal_network()
 
 
+def _call_in_fresh_thread(fn, arg):
+    """Run fn(arg) in a new thread: its Python stack then starts at the same (tiny) depth in a pool worker, in the
+    minimiser and in the replay tool, so that a RecursionError - the one 'fault' whose position depends on the
+    absolute stack depth - strikes at the same place everywhere."""
+    import threading
+    box = {}
+
+    def body():
+        try:
+            box["res"] = fn(arg)
+        except BaseException as e:          # re-raised in the caller below
+            box["exc"] = e
+    threading.stack_size(256 * 1024 * 1024)
+    t = threading.Thread(target=body, name="dsim-run")
+    t.start()
+    t.join()
+    if "exc" in box:
+        raise box["exc"]
+    return box["res"]
+
+
 def fork_call(fn, arg, timeout=None):
     """Run fn(arg) in a forked child; return its JSON-able result.
 
@@ -47,7 +68,7 @@ def fork_call(fn, arg, timeout=None):
             faulthandler.dump_traceback_later(max(1.0, timeout - 1.0), exit=True)
             try:
                 _child_prepare()
-                res = fn(arg)
+                res = _call_in_fresh_thread(fn, arg)
                 data = json.dumps({"ok": res}, default=repr).encode()
             except BaseException:
                 data = json.dumps({"harness_error": traceback.format_exc()[-4000:]}).encode()
